@@ -393,3 +393,130 @@ Proof.
   - intros n x Hx. done.
   - intros h q Hq. apply lookup_replicate in Hq as [-> _]. constructor.
 Qed.
+
+(* ---- which panics the heap's operations can raise from a consistent state *)
+From Incr.Proofs Require Import Safe.
+
+Definition Iri (s : state) : Prop := debug s = true /\ rch_inv s.
+(* the three internal failures of the heap: "node was not in recompute heap", and an index out of
+   bounds when reading a queue *)
+Definition Qri (t : ptag) : Prop := t <> PNotInRch /\ t <> PIndex 103 /\ t <> PIndex 104.
+
+Lemma Iri_of_Rri s s' : Rri s s' -> Iri s -> Iri s'.
+Proof. intros R [Hd Hi]. destruct (R Hd Hi). done. Qed.
+
+Lemma bind_panic {A B} (m : M A) (k : A -> M B) s t s' :
+  bindM m k s = (Panic t, s') -> m s = (Panic t, s') \/ exists a s1, m s = (Ok a, s1) /\ k a s1 = (Panic t, s').
+Proof. unfold bindM. destruct (m s) as [[a| |] s1] eqn:E; intros H; [right; by exists a, s1|left; by simplify_eq|done]. Qed.
+
+Lemma get_node_panic n s t s' : get_node n s = (Panic t, s') -> t = PModelGap 1.
+Proof. unfold get_node, bindM, get, ret, panic. destruct (nodes s !! n); intros H; by simplify_eq. Qed.
+
+Lemma dassert2_tags (f : node -> state -> bool) n site s t s' :
+  dassert (x <- get_node n ;; s0 <- get ;; ret (f x s0)) site s = (Panic t, s') -> t = PDebugAssert site \/ t = PModelGap 1.
+Proof.
+  unfold dassert, get_node. unfold bindM, gets, get, ret, panic. cbv beta iota. destruct (debug s); cbv beta iota; [|done].
+  destruct (nodes s !! n) as [x|]; cbv beta iota; [|intros [= <- <-]; by right].
+  destruct (f x s); intros H; [done|]. injection H as <- <-. by left.
+Qed.
+Lemma dassert1_tags (f : node -> bool) n site s t s' :
+  dassert (x <- get_node n ;; ret (f x)) site s = (Panic t, s') -> t = PDebugAssert site \/ t = PModelGap 1.
+Proof.
+  unfold dassert, get_node. unfold bindM, gets, get, ret, panic. cbv beta iota. destruct (debug s); cbv beta iota; [|done].
+  destruct (nodes s !! n) as [x|]; cbv beta iota; [|intros [= <- <-]; by right].
+  destruct (f x); intros H; [done|]. injection H as <- <-. by left.
+Qed.
+
+Lemma rch_link_tags n s t s' : rch_link n s = (Panic t, s') -> t = PModelGap 1 \/ t = PAssert 101 \/ t = PAssert 102.
+Proof.
+  unfold rch_link, get_node, massert, upd_node, modify. unfold bindM, get, ret, panic. cbv beta iota.
+  destruct (nodes s !! n) as [x|] eqn:Hx; [|intros [= <- <-]; by left]. cbv beta iota.
+  case_bool_decide as H0; [|intros [= <- <-]; right; by left]. cbv beta iota.
+  case_bool_decide as H1; [|intros [= <- <-]; right; by right]. cbv beta iota.
+  unfold zget. rewrite bool_decide_eq_false_2 by lia. unfold rch_max_allowed, zlen in H1.
+  destruct (rch_queues s !! Z.to_nat (n_height x)) as [q|] eqn:Hq; [done|].
+  apply lookup_ge_None in Hq. lia.
+Qed.
+
+(* from a consistent state, unlinking a node whose cell says it is in the heap succeeds *)
+Lemma rch_unlink_ok n s x : rch_inv s -> nodes s !! n = Some x -> (0 <= n_height_in_rch x)%Z ->
+  exists s', rch_unlink n s = (Ok tt, s').
+Proof.
+  intros (I1 & I2 & I3) Hx Hpos. destruct (I2 _ _ Hx Hpos) as (q & Hq & Hin).
+  unfold rch_unlink, get_node, modify. unfold bindM, get, ret, panic. cbv beta iota. rewrite Hx. cbv beta iota.
+  unfold zget. rewrite bool_decide_eq_false_2 by lia. rewrite Hq.
+  unfold find_pos. destruct (list_find (fun y => y = n) q) as [[i y]|] eqn:Hf; simpl; [by eexists|].
+  apply list_find_None in Hf. rewrite Forall_forall in Hf. apply elem_of_list_In in Hin. by destruct (Hf n Hin).
+Qed.
+
+Ltac qri := (unfold Qri; split_and!; congruence).
+Ltac qri_or H := (destruct_or! H; subst; qri).
+
+Lemma sf_rch_insert n : safe Iri Qri (rch_insert n).
+Proof.
+  intros s [Hd Hi]. split; [apply (Iri_of_Rri s); [apply ri_rch_insert|done]|].
+  intros t E. destruct (rch_insert n s) as [r s'] eqn:E'. simpl in E. subst r. unfold rch_insert in E'.
+  apply bind_panic in E' as [E'|(u1 & s1 & _ & E')]; [apply dassert2_tags in E'; qri_or E'|].
+  apply bind_panic in E' as [E'|(u2 & s2 & _ & E')]; [apply dassert2_tags in E'; qri_or E'|].
+  apply bind_panic in E' as [E'|(x & s3 & _ & E')]; [apply get_node_panic in E'; subst; qri|].
+  apply bind_panic in E' as [E'|(s4 & s5 & _ & E')]; [unfold get in E'; done|].
+  apply bind_panic in E' as [E'|(u6 & s6 & _ & E')]; [unfold when, modify, ret in E'; by case_bool_decide|].
+  apply bind_panic in E' as [E'|(u7 & s7 & _ & E')]; [apply rch_link_tags in E'; qri_or E'|].
+  unfold modify in E'. done.
+Qed.
+
+Lemma sf_rch_remove n : safe Iri Qri (rch_remove n).
+Proof.
+  intros s [Hd Hi]. split; [apply (Iri_of_Rri s); [apply ri_rch_remove|done]|].
+  intros t E. destruct (rch_remove n s) as [r s'] eqn:E'. simpl in E. subst r. unfold rch_remove in E'.
+  apply bind_panic in E' as [E'|(u1 & s1 & E1 & E')]; [apply dassert2_tags in E'; qri_or E'|].
+  apply (dassert2_run (fun x s0 => in_rch x && negb (needs_to_be_computed s0 x))) in E1 as [-> H1]; [|done].
+  destruct (H1 u1 eq_refl) as (x & Hx & Hc). apply andb_true_iff in Hc as [Hc _]. unfold in_rch in Hc. apply bool_decide_eq_true in Hc.
+  destruct (rch_unlink_ok n s x Hi Hx Hc) as (s2 & Eu).
+  apply bind_panic in E' as [E'|(u2 & s3 & _ & E')]; [congruence|].
+  unfold bindM, upd_node, modify in E'. done.
+Qed.
+
+Lemma sf_rch_increase_height n : safe Iri Qri (rch_increase_height n).
+Proof.
+  intros s [Hd Hi]. split; [apply (Iri_of_Rri s); [apply ri_rch_increase_height|done]|].
+  intros t E. destruct (rch_increase_height n s) as [r s'] eqn:E'. simpl in E. subst r. unfold rch_increase_height in E'.
+  apply bind_panic in E' as [E'|(u1 & s1 & E1 & E')]; [apply dassert1_tags in E'; qri_or E'|].
+  apply (dassert1_run (fun x => bool_decide (n_height_in_rch x < n_height x)%Z)) in E1 as [-> _]; [|done].
+  apply bind_panic in E' as [E'|(u2 & s2 & E2 & E')]; [apply dassert1_tags in E'; qri_or E'|].
+  apply (dassert1_run (fun x => in_rch x)) in E2 as [-> H2]; [|done].
+  destruct (H2 u2 eq_refl) as (x & Hx & Hc). unfold in_rch in Hc. apply bool_decide_eq_true in Hc.
+  apply bind_panic in E' as [E'|(u3 & s3 & E3 & E')]; [apply dassert2_tags in E'; qri_or E'|].
+  apply (dassert2_run (fun x s0 => bool_decide (n_height x <= rch_max_allowed s0)%Z)) in E3 as [-> _]; [|done].
+  destruct (rch_unlink_ok n s x Hi Hx Hc) as (s4 & Eu).
+  apply bind_panic in E' as [E'|(u4 & s5 & _ & E')]; [congruence|].
+  apply rch_link_tags in E'. qri_or E'.
+Qed.
+
+Lemma sf_rch_set_max m : safe Iri Qri (rch_set_max_height_allowed m).
+Proof.
+  intros s [Hd Hi]. split; [apply (Iri_of_Rri s); [apply ri_rch_set_max|done]|].
+  intros t E. destruct (rch_set_max_height_allowed m s) as [r s'] eqn:E'. simpl in E. subst r. unfold rch_set_max_height_allowed in E'.
+  unfold bindM at 1, get at 1 in E'. cbv beta iota in E'.
+  apply bind_panic in E' as [E'|(u1 & s1 & _ & E')].
+  - destruct (_ && _) in E'; [unfold panic in E'; injection E' as <- <-; qri|done].
+  - unfold bindM, modify in E'. done.
+Qed.
+
+Lemma sf_rch_remove_min : safe Iri Qri rch_remove_min.
+Proof.
+  intros s [Hd Hi]. split; [apply (Iri_of_Rri s); [apply ri_rch_remove_min|done]|].
+  intros t E. destruct (rch_remove_min s) as [r s'] eqn:E'. simpl in E. subst r. unfold rch_remove_min in E'.
+  unfold bindM at 1, get at 1 in E'. cbv beta iota in E'. case_bool_decide; [done|].
+  apply bind_panic in E' as [E'|(u1 & s1 & _ & E')].
+  { unfold dassert, bindM, gets, get, ret, panic in E'. cbv beta iota in E'. destruct (debug s); [case_bool_decide|]; simplify_eq. qri. }
+  apply bind_panic in E' as [E'|(oq & s2 & _ & E')].
+  { (* the scan only fails on its own assertion *)
+    clear -E'. revert s1 E'. generalize (S (S (length (rch_queues s)))). intros fuel. induction fuel as [|f IH]; intros s1 E'; [done|].
+    cbn [rch_scan] in E'. unfold bindM at 1, get at 1 in E'. cbv beta iota in E'.
+    destruct (zget (rch_queues s1) (rch_lower s1)) as [q|]; [|done]. case_bool_decide; [|done].
+    apply bind_panic in E' as [E'|(u & s3 & _ & E')]; [done|].
+    apply bind_panic in E' as [E'|(u' & s4 & _ & E')]; [|by eapply IH].
+    unfold dassert, bindM, gets, get, ret, panic in E'. cbv beta iota in E'. destruct (debug s3); [case_bool_decide|]; simplify_eq. qri. }
+  destruct oq as [[|n q']|]; try done.
+Qed.
